@@ -732,50 +732,81 @@ func runC13_9(c *Ctx) {
 			if st.name[to] != "statusRedialing" {
 				continue
 			}
-			vals, okv := VariadicInts(args[1])
-			if !okv {
+			// the source list: a constant list at the call, or a value merged from constant lists (one per branch)
+			type srcList struct {
+				vals []int64
+				pred *ssa.BasicBlock // nil: the list at the call itself
+				join *ssa.BasicBlock
+			}
+			var lists []srcList
+			if vals, okv := VariadicInts(args[1]); okv {
+				lists = append(lists, srcList{vals: vals})
+			} else if phi, isPhi := args[1].(*ssa.Phi); isPhi {
+				for k, e := range phi.Edges {
+					vs, okE := VariadicInts(e)
+					if !okE {
+						lists = nil
+						break
+					}
+					lists = append(lists, srcList{vals: vs, pred: phi.Block().Preds[k], join: phi.Block()})
+				}
+			}
+			if len(lists) == 0 {
 				c.Undec("redialForClient CAS sources", p.InstrPos(cc), "the sources of the CAS to Redialing are not a constant list")
 				return
 			}
-			ci := casInfo{call: cc, param: -1}
-			for _, v := range vals {
-				ci.mask |= 1 << st.bits[v]
-			}
-			for k, prm := range h.fn.Params {
-				if b, isB := prm.Type().Underlying().(*types.Basic); !isB || b.Kind() != types.Bool {
-					continue
+			for _, sl := range lists {
+				ci := casInfo{call: cc, param: -1}
+				for _, v := range sl.vals {
+					ci.mask |= 1 << st.bits[v]
 				}
-				// the flag as redialForClient's callers see it
-				outer := k
-				if h.via != nil {
-					outer = -1
-					for j, fp := range fn.Params {
-						if k < len(h.via.Call.Args) && h.via.Call.Args[k] == ssa.Value(fp) {
-							outer = j
+				// taken(b): the list is in force when control passed through block b
+				taken := func(blk *ssa.BasicBlock, si int) bool {
+					t := blk.Succs[si]
+					if sl.pred == nil {
+						return BlockDominatesInstr(t, cc)
+					}
+					if blk == sl.pred {
+						return t == sl.join
+					}
+					return t == sl.pred || t.Dominates(sl.pred)
+				}
+				for k, prm := range h.fn.Params {
+					if b, isB := prm.Type().Underlying().(*types.Basic); !isB || b.Kind() != types.Bool {
+						continue
+					}
+					// the flag as redialForClient's callers see it
+					outer := k
+					if h.via != nil {
+						outer = -1
+						for j, fp := range fn.Params {
+							if k < len(h.via.Call.Args) && h.via.Call.Args[k] == ssa.Value(fp) {
+								outer = j
+							}
+						}
+						if outer < 0 {
+							continue
 						}
 					}
-					if outer < 0 {
-						continue
+					for _, blk := range h.fn.Blocks {
+						ifi, isIf := blk.Instrs[len(blk.Instrs)-1].(*ssa.If)
+						if !isIf {
+							continue
+						}
+						cv, neg := stripNot(ifi.Cond)
+						if cv != ssa.Value(prm) {
+							continue
+						}
+						if taken(blk, 0) {
+							ci.param, ci.when = outer, !neg
+						}
+						if taken(blk, 1) {
+							ci.param, ci.when = outer, neg
+						}
 					}
 				}
-				for _, blk := range h.fn.Blocks {
-					ifi, isIf := blk.Instrs[len(blk.Instrs)-1].(*ssa.If)
-					if !isIf {
-						continue
-					}
-					cv, neg := stripNot(ifi.Cond)
-					if cv != ssa.Value(prm) {
-						continue
-					}
-					if BlockDominatesInstr(blk.Succs[0], cc) {
-						ci.param, ci.when = outer, !neg
-					}
-					if BlockDominatesInstr(blk.Succs[1], cc) {
-						ci.param, ci.when = outer, neg
-					}
-				}
+				cass = append(cass, ci)
 			}
-			cass = append(cass, ci)
 		}
 	}
 	if len(cass) == 0 {
